@@ -2,6 +2,7 @@ package verifworld
 
 import (
 	"fmt"
+	"os"
 	"runtime/debug"
 	"strings"
 
@@ -49,6 +50,9 @@ func (e *Env) Restart() error {
 	w := NewWorldOn(e.W.Sim)
 	common.VerifResetSSACache()
 	w.Sim.Dead = false
+	if e.Scn.Cfg.SSA {
+		w.Sim.TrackManagedFields = true
+	}
 	e.Scn.Prog.Install(w, e.Scn.Cfg.Kind)
 	ctl, err := e.Factory(w, &e.Scn.Cfg)
 	if err != nil {
@@ -165,6 +169,22 @@ func (e *Env) run(f func() error) *SyncTrace {
 	t.Reqs = e.W.Sim.LogSince(seq)
 	t.Hooks = e.W.Hooks.Take()
 	t.Queue = e.W.Queue.Take()
+	if os.Getenv("VERIF_TRACE") != "" {
+		fmt.Fprintf(os.Stderr, "--- sync %d\n", t.N)
+		for _, l := range t.Summary() {
+			fmt.Fprintf(os.Stderr, "    %s\n", l)
+		}
+		if os.Getenv("VERIF_TRACE") == "2" {
+			for _, r := range t.Reqs {
+				if r.Mutating() {
+					fmt.Fprintf(os.Stderr, "      body #%d: %v\n", r.Seq, r.Body)
+				}
+			}
+			for _, h := range t.Hooks {
+				fmt.Fprintf(os.Stderr, "      hook %s -> %d %s\n", h.URL, h.Response.Code, string(h.Response.Body))
+			}
+		}
+	}
 	return t
 }
 
